@@ -312,6 +312,8 @@ func runC01(r *chk.Run) {
 	RunUnknownTypes(r)
 	// format descriptions of many server versions
 	RunServerVersions(r)
+	RunChecksumChange(r)
+	RunNested(r)
 	// events whose leading bytes take every value, through the packet reader
 	RunHeaderBytes(r)
 	// histories that are large in one dimension each
